@@ -343,7 +343,8 @@ def c04(ctx):
 def c08(ctx):
     substring(ctx, ["iter", "riter"], "iter,riter", {"result", "panic"}, (5, 7) if ctx.quick else (5, 9))
     lib_traces(ctx, "sub", "fwd,rev", "api", 800 if ctx.quick else 8000, "sub")
-    return C.finish(ctx, "model_checking", RULE_SUB)
+    extra = tlaps_supplement(ctx, "FindIterUnbounded", ("StepPos", "InitInv", "NextInv", "Safety"))
+    return C.finish(ctx, "model_checking", RULE_SUB, extra_cov=extra)
 
 
 def c10(ctx):
